@@ -445,6 +445,19 @@ func (x *run) drain(q trie.Queuer[string]) (items []string, overflow bool) {
 	}
 }
 
+// readSome reads only the first n items of a listing (0, 1 or 2, by the position of the call in the case) and leaves the
+// rest in the shared queue: a caller that stops reading early. The items read are the head of the right answer, and the
+// next listing must be exactly its own answer again.
+func (x *run) readSome(q trie.Queuer[string], n int, want []string, what string) error {
+	for j := 0; j < n && j < len(want); j++ {
+		v, err := q.Dequeue()
+		if err != nil || v != want[j] {
+			return fmt.Errorf("%s: item %d of %s is (%s, %v), want %s (the listing is %s)", x.ctx(), j, what, bq(v), err, bq(want[j]), bql(want))
+		}
+	}
+	return nil
+}
+
 func equalStrings(a, b []string) bool {
 	if len(a) != len(b) {
 		return false
@@ -715,13 +728,17 @@ func prop(c Case, r *pbt.R) error {
 		case opStartsWithLeft:
 			// The caller does not read the result: whatever it is stays in the shared
 			// queue, and the next Keys/StartsWith must still return exactly its own answer.
-			_, e := x.t.StartsWith(k)
+			q, e := x.t.StartsWith(k)
 			if k == "" && e == nil {
 				err = fmt.Errorf("%s: StartsWith(\"\") returned no error, want the empty prefix rejected", x.ctx())
 			}
+			if err == nil && k != "" {
+				err = x.readSome(q, i%3, x.wantStartsWith(k), "StartsWith("+bq(k)+")")
+			}
 			x.undrained = true
 		case opKeysLeft:
-			x.t.Keys()
+			q, _ := x.t.Keys()
+			err = x.readSome(q, i%3, x.keys(), "Keys()")
 			x.undrained = true
 		default:
 			return fmt.Errorf("malformed case: operation kind %d", op.Kind)
@@ -891,8 +908,8 @@ var fixedCases = []Case{
 
 const queryRule = "After the calls: Size, Keys, Get/Contains/StartsWith/LongestPrefix of \"\" (absent / rejected), then Get, Contains, StartsWith (queue drained) and LongestPrefix " +
 	"for every query of the sweep and every derived query (each stored key, its proper prefixes, the key extended by 1-2 bytes and with its last byte replaced), then Size and Keys again; " +
-	"oracle = Go map + sorted key list. The result queue is drained right after each call, except that the random generators leave the result of one call in seven unread " +
-	"(Keys-undrained, StartsWith-undrained): the next Keys/StartsWith must still return exactly its own keys. Put(\"\") is never generated; the value returned next to ok=false and the queue/string returned next to a " +
+	"oracle = Go map + sorted key list. The result queue is drained right after each call, except that the random generators leave the result of one call in seven unread or read only its first one or two items " +
+	"(Keys-undrained, StartsWith-undrained; the items read must be the head of the right answer): the next Keys/StartsWith must still return exactly its own keys. Put(\"\") is never generated; the value returned next to ok=false and the queue/string returned next to a " +
 	"rejection error are not asserted, an error is only forbidden when the expected answer is non-empty. " +
 	"Non-trivial = the stored keys contain a key that is a proper prefix of another, or a byte >= 0x80, or a query was an unstored proper prefix or an unstored extension of a stored key. " +
 	"Distinct = enumerated cases (injective encoding, the alphabet is part of the case) + hash-distinct random cases outside the enumerated scope."
